@@ -330,6 +330,24 @@ def _canon_locals(stmts, params=()):
     in order of first store, so that summaries are invariant under renaming."""
     import copy
     stmts = copy.deepcopy(list(stmts))
+    # dead stores of constants (a name bound to a literal and never read) are
+    # unobservable: drop them before comparing the two drivers
+    loaded = {x.id for s_ in stmts for x in ast.walk(s_)
+              if isinstance(x, ast.Name) and isinstance(x.ctx, ast.Load)}
+
+    def dead(s_):
+        return isinstance(s_, ast.Assign) and isinstance(s_.value, ast.Constant) \
+            and all(isinstance(t, ast.Name) and t.id not in loaded for t in s_.targets)
+
+    def prune(block):
+        kept = [s_ for s_ in block if not dead(s_)]
+        block[:] = kept or [ast.Pass()]
+
+    for s_ in [ast.Module(body=stmts, type_ignores=[])] + [x for s0 in stmts for x in ast.walk(s0)]:
+        for fld in ("body", "orelse", "finalbody"):
+            blk = getattr(s_, fld, None)
+            if isinstance(blk, list) and blk and isinstance(blk[0], ast.stmt):
+                prune(blk)
     order = []
     for s_ in stmts:
         for x in ast.walk(s_):
@@ -759,7 +777,9 @@ def _store(run, P):
         raise AnalysisError("no store deletion found in exec_* methods")
     f = P.func("dagrt.expression.EvaluationMapper.map_variable")
     g = CFG(f.node)
-    falls = [(a, lab) for a, lab in g.pred[g.exit] if lab == "fall" or lab in ("T", "F")]
+    live = g.reachable([g.entry], include_start=True)
+    falls = [(a, lab) for a, lab in g.pred[g.exit]
+             if (lab == "fall" or lab in ("T", "F")) and a in live]
     bare = [s for s in func_body_stmts(f.node) if isinstance(s, ast.Return) and s.value is None]
     run.ob("C01.store", f, f.node, not falls and not bare,
            construct="map_variable returns a value or raises on every path",
